@@ -229,12 +229,12 @@ def captured (d : Doc) (u : Ticket) (ue : Elem) : UVal :=
 /-- a live member `u` of `p` whose subtree is a tree of live elements in which every identity occurs
     once (and which contains neither `u` nor `p`) is copy-stable: `instantiate (capture …)` writes
     exactly the entries that are there -/
-theorem copyStable_of_tree {d : Doc} {tw : Ticket → Bool} {p u : Ticket} {ue : Elem} (hu : d u = some ue)
+theorem copyStable_of_tree {d : Doc} {p u : Ticket} {ue : Elem} (hu : d u = some ue)
     (hur : ue.removed = false) (hup : ue.parent = some p) (tree : TreeBelow d copyFuel u ue.body)
     (hnd : ((copyBody d copyFuel u ue.body).2.map (·.1)).Nodup)
     (hpu : p ≠ u) (hpS : p ∉ (copyBody d copyFuel u ue.body).2.map (·.1))
-    (horph : orphaned (kill d (some u)) tw orphanFuel p = false) :
-    CopyStable d tw p u (captured d u ue) := by
+    (horph : orphaned (kill d (some u)) noTw orphanFuel p = false) :
+    CopyStable d p u (captured d u ue) := by
   obtain ⟨hb1, hent⟩ := copyBody_tree copyFuel u ue.body tree
   have hcap : capture d u = some (captured d u ue) := by simp [capture, hu, captured]
   have hc2 : copy2 (captured d u ue) = copyBody d copyFuel u ue.body := by
@@ -334,7 +334,7 @@ theorem undo_do_set_overwrite_container_tree {h : Hist} (fr : Fresh h) {p u : Ti
     (hu : h.doc u = some ue) (tree : TreeBelow h.doc copyFuel u ue.body)
     (hnd : ((copyBody h.doc copyFuel u ue.body).2.map (·.1)).Nodup)
     (hpS : p ∉ u :: (copyBody h.doc copyFuel u ue.body).2.map (·.1))
-    (horph : orphaned (kill h.doc (some u)) h.tw orphanFuel p = false) (fuel : Nat) :
+    (horph : orphaned (kill h.doc (some u)) noTw orphanFuel p = false) (fuel : Nat) :
     marshal (undo (doChange h [.set p k (UVal.ofVal v h.next) h.next])).doc fuel rootId =
       marshal h.doc fuel rootId := by
   obtain ⟨hur, hup⟩ := member_facts fr hp hk hu
@@ -347,7 +347,7 @@ theorem undo_do_delete_container_tree {h : Hist} (fr : Fresh h) {p u : Ticket} {
     (hu : h.doc u = some ue) (tree : TreeBelow h.doc copyFuel u ue.body)
     (hnd : ((copyBody h.doc copyFuel u ue.body).2.map (·.1)).Nodup)
     (hpS : p ∉ u :: (copyBody h.doc copyFuel u ue.body).2.map (·.1))
-    (horph : orphaned (kill h.doc (some u)) h.tw orphanFuel p = false) (fuel : Nat) :
+    (horph : orphaned (kill h.doc (some u)) noTw orphanFuel p = false) (fuel : Nat) :
     marshal (undo (doChange h [.remove p u h.next])).doc fuel rootId = marshal h.doc fuel rootId := by
   obtain ⟨hur, hup⟩ := member_facts fr hp hk hu
   simp only [List.mem_cons, not_or] at hpS
